@@ -1180,6 +1180,12 @@ def get_attr(self, st, base, attr, node, default=KeyError):
                 raise U_("module attribute %s.%s" % (base.mod.name, attr))
             return [(st, "val", self.x_resolved(st, r, attr))]
         dn = base.mod + "." + attr
+        if base.mod == "logging" and getattr(self, "int_sat", 2) > 2:
+            import logging as _logging
+            if attr in ("NOTSET", "DEBUG", "INFO", "WARN", "WARNING", "ERROR", "CRITICAL", "FATAL"):
+                return [(st, "val", getattr(_logging, attr))]
+            if default is not KeyError and not hasattr(_logging, attr):
+                return [(st, "val", default)]        # the stdlib module has no such attribute
         if dn in ("six.PY2",):
             return [(st, "val", False)]
         if dn in ("six.PY3",):
